@@ -49,10 +49,24 @@ def render(flows):
         src += "flow %s\n" % fname(f["i"])
         if f["prio"] is not None:
             src += "  priority %s\n" % f["prio"]
+        src += PRELUDES.get(f.get("prelude"), "")
         args = ", ".join("%s=%s" % (p, 99 if (f["mismatch"] and p == f["S"][0]) else VAL[p]) for p in f["S"])
         aargs = "" if f["aarg"] is None else "x=%d" % f["aarg"]
         src += "  match Ev(%s)\n  start %s%sAction(%s)\n\n" % (args, f["act"], "Y" if f["loop"] else "X", aargs)
+    if any(f.get("prelude") for f in flows):
+        src += "flow failing one\n  abort\n\nflow failing two\n  abort\n\nflow done one\n  $z = 1\n\n"
     return src
+
+
+# statements a competitor went through BEFORE it waits for the event: they finish while the flow is started and change nothing
+# the statement talks about (but leave different traces in the head: label stacks of when/else, merged forks, scopes)
+PRELUDES = {
+    "when-else-all-fail": "  when failing one\n    $w = 1\n  or when failing two\n    $w = 2\n  else\n    $w = 3\n",
+    "when-else-one-case": "  when failing one\n    $w = 1\n  else\n    $w = 3\n",
+    "when-case-taken": "  when done one\n    $w = 1\n  or when failing two\n    $w = 2\n  else\n    $w = 3\n",
+    "or-group": "  await done one or failing one\n",
+    "if-while": "  $w = 0\n  while $w < 2\n    if $w == 1\n      break\n    $w = $w + 1\n",
+}
 
 
 def gen_program(rng, flows=None):
@@ -73,7 +87,8 @@ def gen_program(rng, flows=None):
                 act = alias[act]
             aarg = rng.choice([None, None, 1, 2])
             override = rng.choice([None, None, None, None, "base-has-loop", "plain"])
-            flows.append(dict(i=i, S=S, mismatch=mismatch, prio=prio, loop=loop, act=act, aarg=aarg, override=override))
+            prelude = rng.choice(sorted(PRELUDES)) if rng.random() < 0.25 else None
+            flows.append(dict(i=i, S=S, mismatch=mismatch, prio=prio, loop=loop, act=act, aarg=aarg, override=override, prelude=prelude))
     ev = {"type": "Ev", "a": 1, "b": 2, "c": 3}
     return {"flows": flows, "src": render(flows), "event": ev}
 
